@@ -92,6 +92,9 @@ def _g(k):
 
 def theta_patterns(typ, ns, nt, D):
     pats = [["zero"], ["gradedA"], ["gradedB"]]
+    if typ == SDC:
+        # means far outside what exp() can hold (|mean| ~ 750): the logistic link saturates, clipped to 0.99 / 0.01
+        pats += [["far", 750.0], ["far", -750.0]]
     for name, idx in entries(typ, ns, nt, D):
         pats.append(["onehot", name, idx])
     for name, idx in entries(typ, ns, nt, D):
@@ -123,7 +126,7 @@ class Th:
             a = np.zeros(shape, dtype=float)
             flat = a.reshape(-1)
             for j in range(flat.size):
-                if base in ("gradedA", "bump"):
+                if base in ("gradedA", "bump", "far"):
                     g = _g(k)
                     flat[j] = (0.04 + 1.1 * g) if name == "L" else 2.0 * (g - 0.47)
                 elif base == "gradedB":
@@ -135,6 +138,8 @@ class Th:
             vals[name] = a
         # precisions from both far ends as well (a hand-built or reloaded sample is not bound by the sampler's clipping)
         vals["precision"] = np.array({"gradedA": 2.0, "bump": 2.0, "gradedB": 3e6, "zero": 1e-9}.get(base, 1.0))
+        if base == "far":
+            vals["alpha"] = np.array(float(pat[1]))
         if base in ("onehot", "bump"):
             name, idx = pat[1], tuple(pat[2])
             if name == "precision":
